@@ -148,8 +148,8 @@ M = [
      '                        transport.publish(\n                            f"jobs.{job_id}.status",\n                            data=None,\n                            context=failure_ctx,',
      '                        transport.publish(\n                            f"jobs.{job_id}.failed",\n                            data=None,\n                            context=failure_ctx,'),
     ("c15_status_consumed_without_future_check", "C15", QO,
-     '                    del self.pending_futures[jid]\n',
-     '                    del self.pending_futures[jid]\n                elif self.pending_futures:\n                    # late status: hand it to the oldest waiter\n                    oldest = next(iter(self.pending_futures))\n                    self.pending_futures.pop(oldest).set_result((msg.data, msg.context))\n'),
+     "                        # caller's cancel() must not take the master down.\n                        pass\n",
+     "                        # caller's cancel() must not take the master down.\n                        pass\n                elif self.pending_futures:\n                    # late status: hand it to the oldest waiter\n                    oldest = next(iter(self.pending_futures))\n                    self.pending_futures.pop(oldest).set_result((msg.data, msg.context))\n"),
     ("c15_shared_context_between_jobs", "C15", QO,
      '            (job_id, pipeline_cfg, data, context or ContextType(), profile_dict)',
      '            (job_id, pipeline_cfg, data, context or _EMPTY_CONTEXT, profile_dict)'),
